@@ -98,6 +98,62 @@ theorem atomize_withImplicitTz (itz : Option Int) (m : Mode) (x : Item) :
   have e : atomizeS m = atomize m := by funext y; cases y <;> rfl
   rwa [e] at this
 
+/-! ### the compatibility branch of XPath2Parser under an implicit timezone -/
+
+theorem ebvAtom_fillTz (itz : Option Int) (a : Atom) : ebvAtom (a.fillTz itz) = ebvAtom a := by
+  cases a <;> rfl
+
+theorem ebvList_fillTz (itz : Option Int) (l : List Atom) :
+    ebvList ((l.map (Atom.fillTz itz)).map .atom) = ebvList (l.map .atom) := by
+  match l with
+  | [] => rfl
+  | [a] => simp [ebvList, ebvAtom_fillTz]
+  | _ :: _ :: _ => rfl
+
+theorem singleBool?_fillTz (itz : Option Int) (l : List Atom) :
+    singleBool? (l.map (Atom.fillTz itz)) = singleBool? l := by
+  match l with
+  | [] => rfl
+  | [a] => cases a <;> rfl
+  | a :: _ :: _ => cases a <;> simp [singleBool?, Atom.fillTz]
+
+theorem pyFloat_fillTz (itz : Option Int) (a : Atom) : pyFloat (a.fillTz itz) = pyFloat a := by
+  cases a <;> rfl
+
+theorem mapFloat_fillTz (itz : Option Int) (l : List Atom) : mapFloat (l.map (Atom.fillTz itz)) = mapFloat l := by
+  induction l with
+  | nil => rfl
+  | cons a l ih => simp [mapFloat, pyFloat_fillTz, ih]
+
+/-- CONTEXT REDUCTION, XPath2Parser(compatibility_mode=True): the single-boolean rule and the float()
+path never look at a timezone (a date/time value has no effective boolean value and no float()), the
+`=`/`!=` path goes through the same pair loop as without compatibility mode -/
+theorem generalCmpCtx_eq_filled_v2c (itz : Option Int) (op : Op) (L Rr : List Item) :
+    generalCmpCtx itz .v2c op L Rr =
+      generalCmp .v2c op (L.map (withImplicitTz itz)) (Rr.map (withImplicitTz itz)) := by
+  have hl : ∀ X : List Item, (X.map (withImplicitTz itz)).map (atomize .v2c) =
+      (X.map (atomize .v2c)).map (Atom.fillTz itz) := by
+    intro X
+    simp only [List.map_map]
+    apply List.map_congr_left
+    intro x _
+    simpa using atomize_withImplicitTz itz .v2c x
+  have hloop : ∀ l r : List Atom,
+      compatLoopWith (pairGeneralCtx itz .v2c op) .v2c op l r =
+        compatLoopWith (pairGeneral .v2c op) .v2c op (l.map (Atom.fillTz itz)) (r.map (Atom.fillTz itz)) := by
+    intro l r
+    unfold compatLoopWith
+    by_cases ho : op.isOrd = true
+    · simp [ho, mapFloat_fillTz]
+    · simp only [ho, Bool.false_eq_true, if_false, reduceCtorEq]
+      rw [product_map, anyPairs_map]
+      congr 1
+      funext a b
+      exact pairGeneral_fill_insens itz .v2c op a b
+  simp only [generalCmpCtx, generalCmp, generalCmpWith, Mode.compat, if_true, hl, List.isEmpty_map,
+    singleBool?_fillTz, ebvList_fillTz, hloop]
+
+
 theorem atomizedOperand_filled (itz : Option Int) (m : Mode) (L : List Item) :
     atomizedOperand m (L.map (withImplicitTz itz)) =
       (atomizedOperand m L).map (fun o => o.map (Atom.fillTz itz)) := by
